@@ -1,28 +1,42 @@
 //! Observation digest `Tr`: the output value of every harness grammar.
 //!
-//! A `Tr` is a byte string of length `n` packed into a `u128` (`h = (h << 8) | byte`), i.e. exact (injective)
-//! for up to 16 bytes and lossy (oldest bytes fall off) beyond. Equal structures always give equal digests, so
-//! the digest can never cause a false alarm; beyond 16 bytes a difference in the oldest bytes could be hidden.
-//! No multiplication anywhere (bit-blasting friendly).
+//! A `Tr` is a byte string of length `n` packed into ONE `u128`: bits 120..128 hold `n`, bits 0..120 the last
+//! (up to) 15 bytes (`h = (h << 8) | byte`), i.e. exact (injective) for up to 15 bytes and lossy (oldest bytes
+//! fall off) beyond. Equal structures always give equal digests, so the digest can never cause a false alarm;
+//! beyond 15 bytes a difference in the oldest bytes could be hidden. No multiplication anywhere (bit-blasting
+//! friendly); a single scalar without padding (structs with padding bytes are copied byte-wise by CBMC when they
+//! travel through `Vec`s, which is an order of magnitude slower — measured).
 
 #[derive(Copy, Clone, PartialEq, Eq, Debug, Default)]
-pub struct Tr {
-    pub h: u128,
-    pub n: u8,
-}
+pub struct Tr(pub u128);
+
+const NSH: u32 = 120;
+const HMASK: u128 = (1u128 << NSH) - 1;
 
 impl Tr {
     #[inline(always)]
     pub const fn unit() -> Tr {
-        Tr { h: 0, n: 0 }
+        Tr(0)
+    }
+    #[inline(always)]
+    pub fn n(self) -> u8 {
+        (self.0 >> NSH) as u8
+    }
+    #[inline(always)]
+    pub fn h(self) -> u128 {
+        self.0 & HMASK
+    }
+    #[inline(always)]
+    fn mk(h: u128, n: u8) -> Tr {
+        Tr((h & HMASK) | ((n as u128) << NSH))
     }
     #[inline(always)]
     pub fn tok(t: u8) -> Tr {
-        Tr { h: t as u128, n: 1 }
+        Tr::mk(t as u128, 1)
     }
     #[inline(always)]
     pub fn push(self, b: u8) -> Tr {
-        Tr { h: (self.h << 8) | b as u128, n: self.n.wrapping_add(1) }
+        Tr::mk((self.h() << 8) | b as u128, self.n().wrapping_add(1))
     }
     /// Tag marker (which alternative / which constructor).
     #[inline(always)]
@@ -37,14 +51,14 @@ impl Tr {
     /// Concatenate (`self` first).
     #[inline(always)]
     pub fn cat(self, o: Tr) -> Tr {
-        let sh = ((o.n & 0x1f) as u32) << 3;
-        let h = if sh >= 128 { o.h } else { (self.h << sh) | o.h };
-        Tr { h, n: self.n.wrapping_add(o.n) }
+        let sh = ((o.n() & 0x1f) as u32) << 3;
+        let h = if sh >= NSH { o.h() } else { (self.h() << sh) | o.h() };
+        Tr::mk(h, self.n().wrapping_add(o.n()))
     }
     /// Last pushed byte (0 for the empty digest).
     #[inline(always)]
     pub fn low(self) -> u8 {
-        self.h as u8
+        self.0 as u8
     }
     /// Digest of a list: count marker, then the items in order.
     pub fn list(items: &[Tr]) -> Tr {
@@ -63,7 +77,7 @@ impl Tr {
 pub fn same(a: &Option<Tr>, b: &Option<Tr>) -> bool {
     match (a, b) {
         (None, None) => true,
-        (Some(x), Some(y)) => x.h == y.h && x.n == y.n,
+        (Some(x), Some(y)) => x.0 == y.0,
         _ => false,
     }
 }
